@@ -274,12 +274,12 @@ class Gen(object):
                             self.spawn_pool.append(u)
             last = k == nseg
             if not last and r.random() < p["p_raise"] * 0.5:
-                segs.append(seg(ops, term("raiseb" if r.random() < p["p_raiseb"] else "raise")))
+                segs.append(seg(ops, term(("raisec" if r.random() < 0.3 else "raiseb") if r.random() < p["p_raiseb"] else "raise")))
                 break
             if last:
                 x = r.random()
                 if x < p["p_raise"]:
-                    segs.append(seg(ops, term("raiseb" if r.random() < p["p_raiseb"] else "raise")))
+                    segs.append(seg(ops, term(("raisec" if r.random() < 0.3 else "raiseb") if r.random() < p["p_raiseb"] else "raise")))
                 elif x < p["p_raise"] + p["p_result"]:
                     segs.append(seg(ops, term("result")))
                 elif spawned and r.random() < 0.5:
